@@ -4,9 +4,15 @@ An ABSTRACT SOURCE TREE (plain JSON-able dicts) describes directories, modules (
 test functions and suite classes in source order) and nested classes:
 
     dir  = {"name": str, "mods": [mod...], "dirs": [dir...]}                       (the root dir's name is ignored)
-    mod  = {"file": str, "suite": None | {"name","desc","rank","cond","tags"}, "items": [item...]}
-    item = {"k": "test",  "attr","name","desc","cond","disabled","tags","params": None | {"values","naming","csv"}}
-         | {"k": "class", "attr","name","desc","rank","cond","disabled","tags","body": [item...]}
+    mod  = {"file": str, "suite": None | {"name","desc","rank","cond","tags","props","links"}, "items": [item...]}
+    item = {"k": "test",  "attr","name","desc","cond","disabled","tags","props","links",
+            "params": None | {"values","naming","csv"}}
+         | {"k": "class", "attr","name","desc","rank","cond","disabled","tags","props","links","body": [item...]}
+    item "props": [[key, value]...]  = its @lcc.prop(key, value) decorators, top to bottom as written in the source
+    item "links": [[url, name|None]...] = its @lcc.link(url[, name]) decorators, top to bottom
+    SUITE "props": [[key, value]...] = the entries of the "properties": {...} literal in the order written (keys may repeat)
+    SUITE "links": ["url" | [url, name|None] ...] = the entries of the "links": [...] list (bare string or tuple)
+    ("props"/"links" may be absent in old replay files: absent = none)
 
 Public functions:
     gen_tree(rng, tier) -> tree                 seeded generator (rng only)
@@ -101,6 +107,39 @@ def _tags(rng):
     return [rng.choice(["slow", "fast", "t1", "x", "smoke", "a_b"]) for _ in range(1 if r < 0.9 else 2)]
 
 
+_PKEYS = ["k", "prio", "a_b", "k", "Owner", "x"]
+_PVALS = ["1", "2", "high", "", "v w", "low"]
+_URLS = ["http://t/1", "http://t/2", "https://bugs.example.org/42", "u"]
+_LNAMES = [None, None, "bug", "doc", "n 1"]
+
+
+def _props(rng):
+    r = rng.random()
+    if r < 0.70:
+        return []
+    return [[rng.choice(_PKEYS), rng.choice(_PVALS)] for _ in range(1 if r < 0.82 else (2 if r < 0.93 else 3))]
+
+
+def _links(rng):
+    r = rng.random()
+    if r < 0.72:
+        return []
+    return [[rng.choice(_URLS), rng.choice(_LNAMES)] for _ in range(1 if r < 0.86 else (2 if r < 0.95 else 3))]
+
+
+def _slinks(rng):
+    """entries of SUITE["links"]: a link without name is written as a bare string half of the time"""
+    return [l[0] if l[1] is None and rng.random() < 0.6 else l for l in _links(rng)]
+
+
+def props_of(x):
+    return [list(p) for p in (x.get("props") or [])]
+
+
+def links_of(x):
+    return [l if isinstance(l, str) else list(l) for l in (x.get("links") or [])]
+
+
 def _cond(rng, p_false=0.15, p_true=0.10):
     r = rng.random()
     return False if r < p_false else (True if r < p_false + p_true else None)
@@ -122,7 +161,8 @@ class _Gen:
         rng = self.rng
         self.budget -= 1
         it = {"k": "test", "attr": _fresh(rng, used), "name": None, "desc": None, "cond": _cond(rng, self.p_false),
-              "disabled": rng.random() < 0.15, "tags": _tags(rng), "params": None}
+              "disabled": rng.random() < 0.15, "tags": _tags(rng), "props": _props(rng), "links": _links(rng),
+              "params": None}
         if rng.random() < 0.2:
             it["name"] = _fresh(rng, used)
         if rng.random() < 0.35:
@@ -139,7 +179,8 @@ class _Gen:
         rng = self.rng
         self.budget -= 1
         it = {"k": "class", "attr": _fresh(rng, used), "name": None, "desc": None, "rank": None,
-              "cond": _cond(rng, self.p_false), "disabled": rng.random() < 0.10, "tags": _tags(rng), "body": []}
+              "cond": _cond(rng, self.p_false), "disabled": rng.random() < 0.10, "tags": _tags(rng), "props": _props(rng),
+              "links": _links(rng), "body": []}
         if rng.random() < 0.2:
             it["name"] = _fresh(rng, used)
         if rng.random() < 0.3:
@@ -170,7 +211,8 @@ class _Gen:
     # ---------------------------------------------------------------- modules
     def suite_dict(self, p_hidden):
         rng = self.rng
-        s = {"name": None, "desc": None, "rank": None, "cond": _cond(rng, p_hidden, 0.15), "tags": _tags(rng)}
+        s = {"name": None, "desc": None, "rank": None, "cond": _cond(rng, p_hidden, 0.15), "tags": _tags(rng),
+             "props": _props(rng), "links": _slinks(rng)}
         if rng.random() < 0.3:
             s["name"] = _ident(rng)
         if rng.random() < 0.3:
@@ -319,7 +361,7 @@ def _inject_duplicate(rng, tree):
 
     def ensure_suite(m):
         if m["suite"] is None:
-            m["suite"] = {"name": None, "desc": None, "rank": None, "cond": None, "tags": []}
+            m["suite"] = {"name": None, "desc": None, "rank": None, "cond": None, "tags": [], "props": [], "links": []}
         return m["suite"]
 
     for kind in kinds:
@@ -455,6 +497,13 @@ def _emit_items(items, ind, method, out):
             out.append("%s@lcc.disabled()" % pad)
         if it["tags"]:
             out.append("%s@lcc.tags(%s)" % (pad, ", ".join(repr(t) for t in it["tags"])))
+        for k, v in props_of(it):
+            out.append("%s@lcc.prop(%r, %r)" % (pad, k, v))
+        for j, (url, name) in enumerate(links_of(it)):
+            if name is None:
+                out.append("%s@lcc.link(%r)" % (pad, url))
+            else:
+                out.append("%s@lcc.link(%r, %s%r)" % (pad, url, "name=" if j % 2 else "", name))
         if it["k"] == "test":
             p = it["params"]
             args = (["self"] if method else []) + (["i"] if p is not None else [])
@@ -494,6 +543,10 @@ def module_source(mod):
             parts.append('"visible_if": lambda m: %r' % bool(s["cond"]))
         if s["tags"]:
             parts.append('"tags": %r' % list(s["tags"]))
+        if props_of(s):
+            parts.append('"properties": {%s}' % ", ".join("%r: %r" % (k, v) for k, v in props_of(s)))
+        if links_of(s):
+            parts.append('"links": [%s]' % ", ".join(repr(l) if isinstance(l, str) else repr(tuple(l)) for l in links_of(s)))
         out.append("SUITE = {%s}" % ", ".join(parts))
         out.append("")
     _emit_items(mod["items"], 0, False, out)
@@ -520,10 +573,21 @@ def write_tree(tree, root_dir):
 
 
 # ============================================================================================ real implementation
+def _obs_props(props):
+    """a dict in iteration (= insertion) order"""
+    return [[k, v] for k, v in props.items()]
+
+
+def _obs_links(links):
+    return [[l[0], l[1]] if isinstance(l, (tuple, list)) and len(l) == 2 else ["?" + repr(l), None] for l in links]
+
+
 def _obs_suite(s):
     return {"name": s.name, "desc": s.description, "rank": s.rank, "disabled": bool(s.disabled), "tags": list(s.tags),
+            "props": _obs_props(s.properties), "links": _obs_links(s.links),
             "tests": [{"name": t.name, "desc": t.description, "rank": t.rank, "disabled": bool(t.disabled),
-                       "tags": list(t.tags), "param": (t.parameters["i"] if t.parameters else None)}
+                       "tags": list(t.tags), "props": _obs_props(t.properties), "links": _obs_links(t.links),
+                       "param": (t.parameters["i"] if t.parameters else None)}
                       for t in s.get_tests()],
             "suites": [_obs_suite(x) for x in s.get_suites()]}
 
@@ -595,6 +659,36 @@ def _bound(items):
     return out
 
 
+def _decorated_props(it):
+    """the dict declared by the @lcc.prop decorators of a symbol (written top to bottom): one entry per key, the value
+    is the one of the topmost decorator of that key; decorators take effect bottom-up, which gives the order of the keys"""
+    calls = props_of(it)
+    ks = []
+    for k, _ in reversed(calls):
+        if k not in ks:
+            ks.append(k)
+    return [[k, [v for kk, v in calls if kk == k][0]] for k in ks]
+
+
+def _decorated_links(it):
+    """one link per @lcc.link decorator, bottom-up"""
+    return [[u, n] for u, n in reversed(links_of(it))]
+
+
+def _suite_dict_props(s):
+    """a {...} literal: one entry per key at the place where the key is first written, the value written last"""
+    ents = props_of(s)
+    ks = []
+    for k, _ in ents:
+        if k not in ks:
+            ks.append(k)
+    return [[k, [v for kk, v in ents if kk == k][-1]] for k in ks]
+
+
+def _suite_dict_links(s):
+    return [[l, None] if isinstance(l, str) else [l[0], l[1]] for l in links_of(s)]
+
+
 def _test_records(it):
     name = it["name"] or it["attr"]
     desc = it["desc"] or _auto_desc(name)
@@ -605,13 +699,16 @@ def _test_records(it):
         named = [("%s_%d" % (name, k), "%s #%d" % (desc, k), v) for k, v in enumerate(p["values"], 1)]
     else:
         named = [(p["naming"][k][0], p["naming"][k][1], v) for k, v in enumerate(p["values"])]
-    return [{"name": n, "desc": d, "disabled": bool(it["disabled"]), "tags": list(it["tags"]), "param": v}
+    return [{"name": n, "desc": d, "disabled": bool(it["disabled"]), "tags": list(it["tags"]),
+             "props": _decorated_props(it), "links": _decorated_links(it), "param": v}
             for n, d, v in named]
 
 
-def _node(name, desc, kind, src=0, ranked=False, tests=(), subs=(), ghost=False):
+def _node(name, desc, kind, src=0, ranked=False, tests=(), subs=(), ghost=False, meta=None):
+    """meta = (tags, props, links) the suite declares; a directory declares none"""
+    tags, props, links = meta or ([], [], [])
     return {"name": name, "desc": desc, "kind": kind, "src": src, "ranked": ranked, "tests": list(tests),
-            "subs": list(subs), "ghost": ghost}
+            "subs": list(subs), "ghost": ghost, "tags": list(tags), "props": props, "links": links}
 
 
 def _scope(items, view):
@@ -629,7 +726,8 @@ def _scope(items, view):
                 continue
             t, s = _scope(it["body"], view)
             name = it["name"] or it["attr"]
-            subs.append(_node(name, it["desc"] or _auto_desc(name), "class", k, it["rank"] is not None, t, s, hidden))
+            subs.append(_node(name, it["desc"] or _auto_desc(name), "class", k, it["rank"] is not None, t, s, hidden,
+                              meta=(it["tags"], _decorated_props(it), _decorated_links(it))))
     return tests, subs
 
 
@@ -641,11 +739,12 @@ def _module_nodes(mod, comp, view):
     s = mod["suite"]
     name = (s and s["name"]) or mod["file"]
     desc = (s and s["desc"]) or _auto_desc(name)
+    meta = None if s is None else (s["tags"], _suite_dict_props(s), _suite_dict_links(s))
     if s is not None and s["cond"] is False:            # hidden module: the module and its directory are not declared
         out = []
         if view.ghosts:
             t, c = _scope(mod["items"], view)
-            out.append(_node(name, desc, "module", tests=t, subs=c, ghost=True))
+            out.append(_node(name, desc, "module", tests=t, subs=c, ghost=True, meta=meta))
         if comp is not None and view.leak:
             out.append(_node(comp["name"], _auto_desc(comp["name"]), "dir", subs=_dir_children(comp, view)))
         return out
@@ -660,7 +759,7 @@ def _module_nodes(mod, comp, view):
         if cls["name"] is not None:
             view.notes.add("collapse:name-arg")
     else:
-        node = _node(name, desc, "module", tests=tests, subs=subs)
+        node = _node(name, desc, "module", tests=tests, subs=subs, meta=meta)
     if comp is not None:
         node["subs"] = node["subs"] + _dir_children(comp, view)
     return [node]
@@ -693,13 +792,14 @@ def _flatten(nodes, prefix=()):
         p = prefix + (n["name"],)
         for t in n["tests"]:
             yield {"path": list(p) + [t["name"]], "desc": t["desc"], "disabled": t["disabled"], "tags": list(t["tags"]),
-                   "param": t["param"]}
+                   "props": t["props"], "links": t["links"], "param": t["param"]}
         for r in _flatten(n["subs"], p):
             yield r
 
 
 def expected(tree):
-    """The declared visible tests: [{"path": [suite names..., test name], "desc", "disabled", "tags", "param"}]."""
+    """The declared visible tests: [{"path": [suite names..., test name], "desc", "disabled", "tags", "props", "links",
+    "param"}]."""
     return list(_flatten(_dir_children(tree, _View())))
 
 
@@ -771,7 +871,7 @@ def _flatten_obs(suites, prefix=()):
         p = prefix + (s["name"],)
         for t in s["tests"]:
             yield {"path": list(p) + [t["name"]], "desc": t["desc"], "disabled": t["disabled"], "tags": list(t["tags"]),
-                   "param": t["param"]}
+                   "props": t.get("props", []), "links": t.get("links", []), "param": t["param"]}
         for r in _flatten_obs(s["suites"], p):
             yield r
 
@@ -807,6 +907,22 @@ def _check_order(declared, loaded, prefix, hits):
         if got != want:
             hits.append(("order", "class suites of %s are loaded as %s but declared as %s" % (where, got, want)))
         _check_order(n["subs"], s["suites"], prefix + (s["name"],), hits)
+
+
+def _check_suite_meta(declared, loaded, prefix, hits):
+    """every loaded suite carries the tags / properties / links its declaration gives (class decorators, SUITE dict,
+    nothing for a directory); suites are matched by name where the name is unambiguous on both sides"""
+    declared = [n for n in declared if not n["ghost"]]
+    names = [n["name"] for n in declared]
+    for s in loaded:
+        if names.count(s["name"]) != 1 or [x["name"] for x in loaded].count(s["name"]) != 1:
+            continue
+        n = declared[names.index(s["name"])]
+        where = ".".join(prefix + (s["name"],))
+        for f in ("tags", "props", "links"):
+            if n[f] != s.get(f, []):
+                hits.append(("suite-metadata:" + f, "suite %s: %s declared %r, loaded %r" % (where, f, n[f], s.get(f, []))))
+        _check_suite_meta(n["subs"], s["suites"], prefix + (s["name"],), hits)
 
 
 def oracle(tree, obs):
@@ -851,10 +967,11 @@ def oracle(tree, obs):
                 hits.append(("undeclared-test", "loaded test %s is not declared (%d declared, %d loaded)"
                              % (p, len(e), len(g))))
         if len(e) == 1 and len(g) == 1:
-            for f in ("desc", "disabled", "tags", "param"):
+            for f in ("desc", "disabled", "tags", "props", "links", "param"):
                 if e[0][f] != g[0][f]:
                     hits.append(("metadata:" + f, "test %s: %s declared %r, loaded %r" % (p, f, e[0][f], g[0][f])))
     _check_order(nodes, obs["ok"], (), hits)
+    _check_suite_meta(nodes, obs["ok"], (), hits)
     if dups:
         hits.append(("duplicate-accepted", "loader accepts: " + fmt(dups)))
     else:
@@ -911,6 +1028,23 @@ def features(tree):
                 f.add("explicit-desc")
             if it["tags"]:
                 f.add("tags")
+            pr, ln = props_of(it), links_of(it)
+            if pr:
+                f.add("props")
+                f.add("props:" + kind)
+                if len(set(k for k, _ in pr)) != len(pr):
+                    f.add("props:repeated-key")
+                if kind == "test" and it["params"] is not None and it["params"]["values"]:
+                    f.add("props:parametrized")
+            if ln:
+                f.add("links")
+                f.add("links:" + kind)
+                if any(n is not None for _, n in ln):
+                    f.add("links:named")
+                if len(set(map(tuple, ln))) != len(ln):
+                    f.add("links:repeated")
+                if kind == "test" and it["params"] is not None and it["params"]["values"]:
+                    f.add("links:parametrized")
             if any(c.isupper() for c in it["attr"] + (it["name"] or "")):
                 f.add("mixed-case")
             if kind == "test":
@@ -968,6 +1102,18 @@ def features(tree):
                     f.add("SUITE-desc")
                 if s["tags"]:
                     f.add("tags")
+                if props_of(s):
+                    f.add("props")
+                    f.add("props:SUITE")
+                    if len(set(k for k, _ in props_of(s))) != len(props_of(s)):
+                        f.add("props:repeated-key")
+                if links_of(s):
+                    f.add("links")
+                    f.add("links:SUITE")
+                    if any(isinstance(l, str) for l in links_of(s)):
+                        f.add("links:SUITE-bare-string")
+                    if any(not isinstance(l, str) for l in links_of(s)):
+                        f.add("links:SUITE-tuple")
                 if hidden:
                     f.add("hidden-module")
                 if s["cond"] is True:
@@ -1063,9 +1209,14 @@ def _edits(tree):
                         eds.append((2, setv(ip + ["params"], "naming", None)))
                     if p["csv"]:
                         eds.append((2, setv(ip + ["params"], "csv", False)))
-            for fld, dflt in (("name", None), ("desc", None), ("cond", None), ("disabled", False), ("tags", [])):
-                if it[fld] != dflt:
+            for fld, dflt in (("name", None), ("desc", None), ("cond", None), ("disabled", False), ("tags", []),
+                              ("props", []), ("links", [])):
+                if it.get(fld, dflt) != dflt:
                     eds.append((2, setv(ip, fld, dflt)))
+            for fld in ("props", "links"):
+                if len(it.get(fld) or []) > 1:
+                    for j in range(len(it[fld])):
+                        eds.append((2, delete(ip, fld, j)))
 
     def dirs(d, path):
         for k in range(len(d["dirs"])):
@@ -1078,9 +1229,14 @@ def _edits(tree):
             s = m["suite"]
             if s is not None:
                 eds.append((1, setv(mp, "suite", None)))
-                for fld, dflt in (("name", None), ("desc", None), ("rank", None), ("cond", None), ("tags", [])):
-                    if s[fld] != dflt:
+                for fld, dflt in (("name", None), ("desc", None), ("rank", None), ("cond", None), ("tags", []),
+                                  ("props", []), ("links", [])):
+                    if s.get(fld, dflt) != dflt:
                         eds.append((2, setv(mp + ["suite"], fld, dflt)))
+                for fld in ("props", "links"):
+                    if len(s.get(fld) or []) > 1:
+                        for j in range(len(s[fld])):
+                            eds.append((2, delete(mp + ["suite"], fld, j)))
         for k, x in enumerate(d["dirs"]):
             dirs(x, path + ["dirs", k])
 
